@@ -347,6 +347,15 @@ impl Gen {
                 }
             }
         }
+        // sometimes: an ignored field (kept in memory, never on the wire) in the middle of the run
+        if shape == Shape::Named && fields.len() >= 3 && self.rng.chance(1, 7) {
+            let cands: Vec<usize> = (0..fields.len()).filter(|i| !fields[*i].has_version_attr() && !matches!(fields[*i].ty, Ty::Def(..))).collect();
+            if !cands.is_empty() {
+                let i = *self.rng.pick(&cands);
+                fields[i].ignore = true;
+                self.stat("packed_struct.ignored_field_inside_run");
+            }
+        }
         self.stat(&format!("packed_struct.repr_{:?}", repr));
         let name = self.name("P");
         self.push(Def { name, repr, kind: DefKind::Struct { shape, fields }, params: 0, recursive: false })
@@ -736,6 +745,21 @@ fn fixed_defs(g: &mut Gen) {
         params: 0,
         recursive: false,
     });
+    // ignored field in the middle of a run of same-size fields (the derive writes such runs as one region)
+    for (k, repr) in [(12, Repr::Rust), (13, Repr::C)] {
+        let mut ign = f("f2", p(Prim::U32));
+        ign.ignore = true;
+        g.push(Def {
+            name: format!("{}Fix{}", g.prefix, k),
+            repr,
+            kind: DefKind::Struct {
+                shape: Shape::Named,
+                fields: vec![f("f0", p(Prim::U32)), f("f1", p(Prim::U32)), ign, f("f3", p(Prim::U32)), f("f4", Ty::Str)],
+            },
+            params: 0,
+            recursive: false,
+        });
+    }
     // repr(Rust) struct of one-byte fields, some with a niche (the compiler may reorder them)
     g.push(Def {
         name: format!("{}Fix11", g.prefix),
@@ -819,6 +843,8 @@ pub fn gen_data_batch(seed: u64, n_defs: usize, module: &str, name_prefix: &str)
         Ty::Opt(bx(Ty::Str)),
         Ty::Res(bx(u32t.clone()), bx(Ty::Str)),
         Ty::Seq(SeqKind::Vec, bx(Ty::Prim(Prim::U8))),
+        // items written one by one (not bulk-copyable): large values cross the encryption block inside the sequence
+        Ty::Seq(SeqKind::Vec, bx(Ty::Prim(Prim::Usize))),
         Ty::Seq(SeqKind::Vec, bx(Ty::Prim(Prim::Bool))),
         Ty::Seq(SeqKind::Vec, bx(Ty::Prim(Prim::Char))),
         Ty::Seq(SeqKind::Vec, bx(Ty::Str)),
